@@ -120,6 +120,7 @@ def run_verus_unit(unit, rlimit=200, probe=False, repo=None, extra=None):
     open(f, "w").write(text)
     # round-trip guard over the whole emitted file was done per item in splice_fn; record items
     res["items"] = man["items"]
+    res["nprobes"] = text.count("/*probe*/")
     res["rewrites"] = man["log"]
     cmd = ["verus", f, "--triggers-mode", "silent", "--rlimit", str(rlimit), "--output-json", "--time",
            "--multiple-errors", "40" if probe else "4"] + (extra or [])
